@@ -66,6 +66,116 @@ fn dup_switch_case(seed: u64, trace: bool) -> super::CaseOut {
     out
 }
 
+/// Late originals: every datagram that is reordered arrives well after its retransmission, so
+/// receivers hold overlapping copies of the same ranges with different frame boundaries; readers
+/// start late (nothing is read until the senders are done or a deadline passes), some unordered
+/// from the first read, some switching to unordered after a few ordered reads.
+fn late_originals_case(seed: u64, trace: bool) -> super::CaseOut {
+    let mut r = crate::util::Rng::new(seed ^ 0xC01B);
+    let mut k = Knobs::default();
+    k.ops = false;
+    k.datagrams = false;
+    k.aborts = false;
+    k.mtu_changes = false;
+    k.max_streams = 3;
+    k.max_stream_len = 40_000;
+    k.fault_window_ns = Some(30_000_000_000);
+    let mut h = Honest::random(seed, &k);
+    h.net.latency_ns = *r.pick(&[200_000, 1_000_000, 5_000_000]);
+    h.net.jitter_ns = 0;
+    h.net.reorder_pm = *r.pick(&[150, 300, 500]);
+    h.net.reorder_ns = h.net.latency_ns * *r.pick(&[6, 12, 40]);
+    h.net.dup_pm = *r.pick(&[0, 100]);
+    h.net.loss_pm = *r.pick(&[0, 0, 30]);
+    h.net.corrupt_pm = 0;
+    for t in h.cli_t.iter_mut().chain([&mut h.srv_t]) {
+        t.pad_to_mtu = false;
+        t.initial_rtt_ms = 1 + h.net.latency_ns / 500_000;
+        // everything fits the windows, so that a held reader does not stall the sender
+        t.stream_rwnd = t.stream_rwnd.max(100_000);
+        t.rwnd = t.rwnd.max(1_000_000);
+        t.send_window = t.send_window.max(1_000_000);
+        t.max_bps = None;
+    }
+    let unordered_first = r.bool();
+    for a in h.cli_app.iter_mut().chain([&mut h.srv_app]) {
+        a.unordered_pct = if unordered_first { 100 } else { 0 };
+        a.switch_pct = 100;
+        a.budget_pct = *r.pick(&[0, 100]);
+        a.small_reads = r.bool();
+        a.stop_pct = 0;
+    }
+    let mut w = h.build();
+    if trace {
+        w.trace = Some(vec![]);
+    }
+    for e in w.eps.iter_mut() {
+        for c in e.conns.values_mut() {
+            c.app.hold_reads = true;
+        }
+    }
+    // phase 1: senders push everything while nobody reads (server-side apps are created held
+    // through the first loop iteration below)
+    let release_at = 20 * h.net.reorder_ns + 200_000_000;
+    let mut steps = 0u64;
+    let mut released = false;
+    let end = loop {
+        if !released {
+            for e in w.eps.iter_mut() {
+                for c in e.conns.values_mut() {
+                    c.app.hold_reads = true;
+                }
+            }
+            let senders_done = w.steps > 3 && w.eps.iter().all(|e| e.conns.values().all(|c| c.app.connected && c.app.jobs_done()));
+            if (senders_done && w.net.q.is_empty()) || w.now > release_at {
+                released = true;
+                for e in w.eps.iter_mut() {
+                    for c in e.conns.values_mut() {
+                        c.app.hold_reads = false;
+                    }
+                }
+                w.mon.cnt.inc("c01.held_readers_released");
+            }
+        }
+        if released && w.all_connected() && w.workload_complete() {
+            break RunEnd::Done;
+        }
+        if steps > 60_000 {
+            break RunEnd::StepCap;
+        }
+        if !w.step() {
+            if !released {
+                released = true;
+                for e in w.eps.iter_mut() {
+                    for c in e.conns.values_mut() {
+                        c.app.hold_reads = false;
+                    }
+                }
+                w.mon.cnt.inc("c01.held_readers_released");
+                // one more round so that the released readers run
+                w.flush_now();
+                for e in w.eps.iter_mut() {
+                    for c in e.conns.values_mut() {
+                        let _ = c.app.poll_pending(&mut c.c, &mut w.led);
+                    }
+                }
+                if w.step() {
+                    continue;
+                }
+            }
+            break if w.workload_complete() { RunEnd::Done } else { RunEnd::Quiescent };
+        }
+        steps += 1;
+    };
+    let mut ran = Ran { w, end };
+    let mut out = base_out(&h, &mut ran, trace);
+    out.nontrivial = out.cnt.get("c01.bytes") > 0 && out.cnt.get("c01.held_readers_released") > 0;
+    if matches!(ran.end, RunEnd::StepCap | RunEnd::TimeCap) {
+        out.inconclusive = Some(format!("{:?} before completion", ran.end));
+    }
+    out
+}
+
 pub fn run(ctx: &Ctx) -> i32 {
     let t = std::time::Instant::now();
     let mut rep = Report::default();
@@ -73,6 +183,8 @@ pub fn run(ctx: &Ctx) -> i32 {
     run_group(ctx, &mut rep, &g, |_, seed, trace| case(seed, Lane::Null, trace));
     let g = Group { name: "dup-switch", cases: ctx.tier.pick(300, 20_000), budget_s: ctx.tier.pick(20.0, 300.0), exhaustive: false };
     run_group(ctx, &mut rep, &g, |_, seed, trace| dup_switch_case(seed, trace));
+    let g = Group { name: "late-originals", cases: ctx.tier.pick(1200, 60_000), budget_s: ctx.tier.pick(20.0, 400.0), exhaustive: false };
+    run_group(ctx, &mut rep, &g, |_, seed, trace| late_originals_case(seed, trace));
     #[cfg(feature = "real")]
     {
         let g = Group { name: "honest-real", cases: ctx.tier.pick(100, 4_000), budget_s: ctx.tier.pick(25.0, 300.0), exhaustive: false };
@@ -90,7 +202,7 @@ pub fn run(ctx: &Ctx) -> i32 {
             ],
             min_evals: ctx.tier.pick(60, 2000),
             min_nontrivial: ctx.tier.pick(20, 200),
-            required: vec!["c01.chunks", "c01.eos", "net.loss", "net.dup", "net.reorder", "c01.ordered_to_unordered_switch", "c01.partial_reads"],
+            required: vec!["c01.chunks", "c01.eos", "net.loss", "net.dup", "net.reorder", "c01.ordered_to_unordered_switch", "c01.partial_reads", "c01.held_readers_released"],
             exhaustive: false,
         },
         t.elapsed().as_secs_f64(),
